@@ -122,7 +122,11 @@ Definition run_session (args : list str) : str :=
   let probes := match nth_arg8 2 args with [] => [] | p => split_byte 32 p end in
   bs "reg=" ++ render_reg cfg ++
   bs "|poss=" ++ hexlist (sort_strs (akeys (possible_caps cfg false))) ++
-  run_rounds cfg probes 0 (cap_init sts_init) (skipn 3 args).
+  run_rounds cfg probes 0 (cap_init sts_init) (skipn 3 args) ++
+  (* after Close: HasCapability on a client that is not connected *)
+  bs "|x=" ++ concat (List.map (fun p => if c_tracking cfg
+                                         then show_bool (has_capability false [] p)
+                                         else [33]) probes).
 
 Definition run_C08 (suite : str) (args : list str) : option str :=
   if streqb suite (bs "cap.parse") then Some (render_capmap (parse_cap (nth_arg8 0 args)))
